@@ -197,7 +197,7 @@ def run(ctx):
         rng = random.Random(ctx.seed * 1709 + 17)
         doms = ["t.example.com", "*.example.com", "T.Example.COM", "tun.ab.example.org", "*.a-b.example.org", "x.yy"]
         plist = [{"idx": i, "seed": ctx.seed * 100000 + i, "rseed": rng.getrandbits(32), "domain": doms[i % len(doms)],
-                  "bind": i % 2 == 0, "n": rng.randint(60, 120)} for i in range(ctx.pick(48, 600))]
+                  "bind": i % 2 == 0, "n": rng.randint(60, 120)} for i in range(ctx.pick(96, 4000))]
         if ctx.replay and "params" in (ctx.replay.get("witness") or {}):
             plist = [ctx.replay["witness"]["params"]]
         dres = core.Result()
